@@ -6,6 +6,7 @@ from Props/C02.lean.
 -/
 import InfluxVerif.Model.Compact
 import InfluxVerif.Props.C02
+import InfluxVerif.Props.BlockOrder
 
 namespace InfluxVerif.Compact
 open InfluxVerif.Values
@@ -190,5 +191,23 @@ theorem snapshot_reads_ordered {α} (size : Nat) (writes : List (TV α)) (h : So
 example : compactKey 2 [⟨[(1, 'a'), (3, 'b'), (5, 'c')], [(3, 3)]⟩, ⟨[(1, 'x'), (4, 'y')], []⟩]
     = [[(1, 'x'), (4, 'y')], [(5, 'c')]] := by
   simp [compactKey, chunk, mergeFiles, visible, exclude, merge]
+
+/-! ### the order in which a compaction merges the blocks of a key (Props/BlockOrder.lean) -/
+
+/-- `blocks.sortStable` keeps overlapping blocks in the order of their files (so that the newer
+file's values win the merge) whatever the number of blocks — the pinned tree's `sort.Stable`
+did not beyond 20 blocks -/
+theorem merge_order_keeps_files (l : List BlockOrder.Blk) (a b : BlockOrder.Blk)
+    (hab : [a, b].Sublist l) (hov : BlockOrder.overlaps a b = true) :
+    [a, b].Sublist (BlockOrder.isort BlockOrder.lessC l) :=
+  BlockOrder.compaction_overlapping_keep_file_order l a b hab hov
+
+theorem merge_order_is_rearrangement (l : List BlockOrder.Blk) : (BlockOrder.isort BlockOrder.lessC l).Perm l :=
+  BlockOrder.isort_perm _ l
+
+/-- no block of the merge order lies wholly before the block in front of it -/
+theorem merge_order_no_inversion (l : List BlockOrder.Blk) :
+    BlockOrder.AdjOK BlockOrder.lessC (BlockOrder.isortRev BlockOrder.lessC [] l) :=
+  BlockOrder.isort_no_adjacent_inversion _ BlockOrder.lessC_asymm l
 
 end InfluxVerif.Compact
